@@ -99,7 +99,20 @@ func c01Check(x *cpuCtx, c *cpuCase) (out []c01Finding, nontrivial bool) {
 	return
 }
 
+func c01AgedCheck(x *cpuCtx, c *cpuCase) (string, string) {
+	fs, _ := c01Check(x, c)
+	for _, f := range fs {
+		if strings.HasPrefix(f.sig, "unexplained:") {
+			return f.sig, f.what
+		}
+	}
+	return "", ""
+}
+
 func replayC01(raw json.RawMessage) (string, error) {
+	if ok, what, err := cpuAgedReplay(raw, c01AgedCheck); ok {
+		return what, err
+	}
 	var pp progPath
 	if json.Unmarshal(raw, &pp) == nil && len(pp.Syms) > 0 {
 		return progReplay(pp, progSeeds(false), progAlphabet(true), true, c01ProgOracle)
@@ -119,6 +132,7 @@ func replayC01(raw json.RawMessage) (string, error) {
 func runC01(r *report.Run) {
 	o := cpuSweepOpts{thorough: r.Tier == "thorough", seed: r.Seed}
 	var nontriv, total int64
+	agedSteps := cpuAgedAll(r, o.thorough, false, c01AgedCheck)
 	counts := cpuEnumerate(o, nil, func(x *cpuCtx, c *cpuCase) {
 		fs, nt := c01Check(x, c)
 		if nt {
@@ -135,7 +149,7 @@ func runC01(r *report.Run) {
 	r.Set("states", total+st)
 	r.Set("transitions", 2*total+tr)
 	r.Set("traces_validated_against_impl", 2*total+tr)
-	r.Set("evaluations", 2*total+tr)
+	r.Set("evaluations", 2*total+tr+agedSteps)
 	r.Set("distinct_nontrivial", nontriv)
 	for i, cs := range cpuSampled {
 		if i%8 == 0 {
